@@ -22,6 +22,9 @@ type Mutant struct {
 	New      string   `json:"new"`
 	Old2     string   `json:"old2,omitempty"` // optional second edit in the same file
 	New2     string   `json:"new2,omitempty"`
+	File3    string   `json:"file3,omitempty"` // optional: one edit (every occurrence) in a second file, e.g. the other callers of a renamed helper
+	Old3     string   `json:"old3,omitempty"`
+	New3     string   `json:"new3,omitempty"`
 	Expect   []string `json:"expect"` // substrings of obligation keys that must be reported
 	Silent   bool     `json:"silent"` // behaviour-preserving variant: nothing may be reported
 	Note     string   `json:"note"`
@@ -111,7 +114,20 @@ func runMutant(self, repo, verif, tmp string, i int, m Mutant, extraEnv []string
 		return mutantResult{ID: m.ID, Status: "broken", Detail: err.Error()}
 	}
 	ov := filepath.Join(tmp, fmt.Sprintf("m%d.json", i))
-	b, _ := json.Marshal(map[string]string{abs: mf})
+	files := map[string]string{abs: mf}
+	if m.File3 != "" {
+		abs3 := filepath.Join(repo, m.File3)
+		src3, err := os.ReadFile(abs3)
+		if err != nil || !strings.Contains(string(src3), m.Old3) {
+			return mutantResult{ID: m.ID, Status: "inapplicable", Detail: "anchor text of the second file not found"}
+		}
+		mf3 := filepath.Join(tmp, fmt.Sprintf("m%d_3.go", i))
+		if err := os.WriteFile(mf3, []byte(strings.ReplaceAll(string(src3), m.Old3, m.New3)), 0o644); err != nil {
+			return mutantResult{ID: m.ID, Status: "broken", Detail: err.Error()}
+		}
+		files[abs3] = mf3
+	}
+	b, _ := json.Marshal(files)
 	os.WriteFile(ov, b, 0o644)
 	cmd := exec.Command(self, "-repo", repo, "-verif", verif, "-property", m.Property, "-tier", "quick", "-overlay", ov, "-no-evidence", "-list")
 	cmd.Env = append(os.Environ(), extraEnv...)
